@@ -121,6 +121,8 @@ func (c *Conversation) End() (toSend []ValidMessage, err error) {
 		c.resend.clear()
 	}
 	c.lastMessageStateChange = time.Time{}
+	// a key exchange abandoned by End() leaves its ephemeral secrets behind: erase them, do not just let go
+	c.ake.wipe(true)
 	c.ake = nil
 	c.msgState = plainText
 	defer c.signalSecurityEventIf(previousMsgState == encrypted, GoneInsecure)
